@@ -397,6 +397,11 @@ impl Runner {
                 let e = parse_easing(w[1]);
                 w[2..].iter().map(|t| e.calc(fb(t)).to_bits().to_string()).collect::<Vec<_>>().join(" ")
             }
+            "easeraw" => {
+                // the custom function itself, not wrapped in `Easing::Custom` ("a custom easing is used as given")
+                let c = Cust(w[1][1..].parse().unwrap());
+                w[2..].iter().map(|t| c.calc(fb(t)).to_bits().to_string()).collect::<Vec<_>>().join(" ")
+            }
             "easesweep" => {
                 let e = parse_easing(w[1]);
                 let (start, count, stride): (u64, u64, u64) = (w[2].parse().unwrap(), w[3].parse().unwrap(), w[4].parse().unwrap());
